@@ -1,5 +1,6 @@
 import MitumModel.Common
 import MitumModel.Model.Voteproof
+import MitumModel.Gen.C03
 namespace Mitum.Driver
 open Mitum Mitum.Voteproof
 
@@ -9,7 +10,7 @@ def c03nats (s : String) : Option (List Nat) :=
 /-- `vp <t10> S:<ids> V:<node=fact,…> E:<node/sig.sig;…> M:<fact|->` → `1`/`0` (accepted or not) -/
 def stepC03 (ts : List String) : String :=
   match ts with
-  | ["vp", t, s, v, e, m] =>
+  | "vp" :: t :: s :: v :: e :: m :: flags =>
     let sect := fun (x : String) => (x.drop 2).toString
     let votes : Option (List (Nat × String)) :=
       if sect v = "" then some [] else
@@ -26,7 +27,8 @@ def stepC03 (ts : List String) : String :=
         | _ => none)
     match t.toNat?, c03nats (sect s), votes, expels with
     | some t10, some S, some votes, some expels =>
-      boolStr (valid S t10 { votes := votes, expels := expels, majority := if sect m = "-" then none else some (sect m) })
+      boolStr (valid S t10 { votes := votes, expels := expels, majority := if sect m = "-" then none else some (sect m),
+                              stuck := flags.contains "stuck" } Gen.C03.stuckRejectsMajority)
     | _, _, _, _ => "bad-op"
   | _ => "bad-op"
 
